@@ -44,6 +44,10 @@ def _build(history):
     return r
 
 
+def _build_chunk(hs):
+    return [_build(h) for h in hs]
+
+
 def explore(driver_ref, driver_args, depth, dedup=True, seed=0, max_states=None, label=''):
     """BFS over histories. driver_ref = (module name, factory attribute).
 
@@ -53,7 +57,6 @@ def explore(driver_ref, driver_args, depth, dedup=True, seed=0, max_states=None,
     _init(modname, attr, driver_args)  # parent keeps a driver for enabled()/initial model
     drv = _DRV
     rng = random.Random(seed)
-    ctx = mp.get_context('fork')
     root = _build([])
     if 'harness_error' in root:
         raise HarnessError(root['harness_error'])
@@ -67,7 +70,9 @@ def explore(driver_ref, driver_args, depth, dedup=True, seed=0, max_states=None,
     maxd = 0
     capped = False
     exhausted = False
-    with ctx.Pool(NPROC, initializer=_init, initargs=(modname, attr, driver_args)) as pool:
+    from vf.runner import pool_map
+
+    if True:
         for d in range(1, depth + 1):
             cands = []
             for node in frontier:
@@ -77,7 +82,9 @@ def explore(driver_ref, driver_args, depth, dedup=True, seed=0, max_states=None,
                 exhausted = True
                 break
             rng.shuffle(cands)  # seed permutes traversal order only
-            results = pool.map(_build, cands, chunksize=max(1, len(cands) // (NPROC * 4)))
+            csz = max(1, len(cands) // (NPROC * 4))
+            chunks = [cands[i : i + csz] for i in range(0, len(cands), csz)]
+            results = pool_map(_build_chunk, chunks, NPROC, _init, (modname, attr, driver_args), flatten=True)
             results.sort(key=lambda r: jdump(r['history']))
             nxt = []
             for r in results:
